@@ -1058,6 +1058,29 @@ Proof.
   destruct (_ && _)%bool; [exact (mframe_pop_route nm D)|apply mframe_ret].
 Qed.
 
+Lemma pm_learn_via peer from m0 x : via_rel m0 (fst (pm_learn peer from m0 x)).
+Proof.
+  unfold pm_learn. destruct (is_request m0 && negb (amem peer (ps_backends (x_p x))))%bool; [|apply via_rel_refl].
+  unfold s_all_via_params. pose proof (decode_all_vias_all_vias (m_headers m0)) as A.
+  destruct (decode_all_vias (m_headers m0)) as [hs vs]. cbn [fst] in *. apply via_rel_eq. exact A.
+Qed.
+Lemma pm_conn_via e tcp m2 x : via_rel m2 (fst (pm_conn e tcp m2 x)).
+Proof.
+  unfold pm_conn. destruct tcp as [c|]; [|apply via_rel_refl].
+  destruct (is_request m2); [|apply via_rel_refl].
+  pose proof (via_rel_next_response_hop m2) as F1.
+  destruct (mtry next_response_hop m2) as [m' hop]. cbn [fst] in F1.
+  destruct hop as [oh| |]; try exact F1.
+  match goal with |- context [match ?X with Ok _ => _ | Err => _ | Panic => _ end] => destruct X as [host| |] end;
+    try exact F1.
+  destruct oh as [hp|]; [|exact F1].
+  pose proof (all_vias_client_transaction m') as F2.
+  destruct (mtry s_client_transaction m') as [m'' tid]. cbn [fst] in F2.
+  assert (F : via_rel m2 m'') by (eapply via_rel_trans; [exact F1|apply via_rel_eq; exact F2]).
+  destruct tid as [[t|]| |]; try exact F.
+  destruct (get_transport _ _ _ _ _ _) as [p1 rk]. destruct rk; exact F.
+Qed.
+
 (* every message: the tail is one HandleMessage on a context that has the new learned table and
    the old outputs *)
 Lemma process_message_shape e peer peer_port from rs tcp m0 x x' :
@@ -1081,25 +1104,30 @@ Lemma process_message_request e peer peer_port from rs tcp m0 x x' :
   process_message e peer peer_port from rs tcp m0 x = Ok x' ->
   exists m3 p1,
     (forall nm, disjoint_names nm (s2b "Via") -> disjoint_names nm (s2b "CSeq") -> frame nm m0 m3) /\
+    via_rel m0 m3 /\
     same_rr (x_p x) p1 /\
     x' = fst (handle_message e from (fst (mtry (try_remove_top_route (e_cfg e) from) m3))
                 {| x_learned := learned_after peer from m0 x; x_p := p1; x_conns := x_conns x;
                    x_world := x_world x; x_outs := x_outs x |}).
 Proof.
   intros R. rewrite process_message_unfold. destruct (pm_learn_spec peer from m0 x) as (L & F1).
-  destruct (pm_learn peer from m0 x) as [m1 l1]. cbn [fst snd] in L, F1. subst l1. cbv zeta.
+  pose proof (pm_learn_via peer from m0 x) as V1.
+  destruct (pm_learn peer from m0 x) as [m1 l1]. cbn [fst snd] in L, F1, V1. subst l1. cbv zeta.
   set (m2 := if (is_request m1 && rs)%bool then fst (s_set_received peer peer_port m1) else m1).
   assert (F2 : forall nm, disjoint_names nm (s2b "Via") -> frame nm m1 m2).
   { intros nm DV. subst m2. destruct (is_request m1 && rs)%bool; [|apply frame_refl].
     apply (mframe_set_received nm DV). }
+  assert (V2 : via_rel m1 m2).
+  { subst m2. destruct (is_request m1 && rs)%bool; [apply via_rel_set_received|apply via_rel_refl]. }
   pose proof (pm_conn_frame e tcp m2 x) as F3. pose proof (pm_conn_same_rr e tcp m2 x) as SR.
-  destruct (pm_conn e tcp m2 x) as [m3 rp]. cbn [fst snd] in F3, SR.
+  pose proof (pm_conn_via e tcp m2 x) as V3.
+  destruct (pm_conn e tcp m2 x) as [m3 rp]. cbn [fst snd] in F3, SR, V3.
   destruct rp as [p1| |]; try discriminate.
   intros H. exists m3, p1.
   assert (F : forall nm, disjoint_names nm (s2b "Via") -> disjoint_names nm (s2b "CSeq") -> frame nm m0 m3).
   { intros nm DV DC. eapply frame_trans; [apply F1; exact DV|]. eapply frame_trans; [apply F2; exact DV|].
     apply F3; assumption. }
-  split; [exact F|]. split; [apply SR; reflexivity|].
+  split; [exact F|]. split; [exact (via_rel_trans _ _ _ V1 (via_rel_trans _ _ _ V2 V3))|]. split; [apply SR; reflexivity|].
   unfold pm_tail in H. cbv zeta in H.
   set (m4 := fst (mtry (try_remove_top_route (e_cfg e) from) m3)) in *.
   assert (R4 : is_response m4 = false).
